@@ -1017,6 +1017,29 @@ func oracle(n int) {
 	defer out.Flush()
 	counts := map[string]int{}
 	fails := 0
+	// large lock maps: a holder may name any number of resources ("any size").  One holder of 700 names must
+	// get through alone; two holders of 400 names each, all different, must be inside AT THE SAME TIME (the
+	// overlap op only finishes when both are) - whatever table the named locks are kept in.
+	big := func(from, n int, w bool) []row {
+		rows := make([]row, n)
+		for i := range rows {
+			rows[i] = row{name: fmt.Sprintf("res%04d", from+i), write: w || i%3 == 0}
+		}
+		return rows
+	}
+	for _, op := range []string{
+		"stress " + holdersText([][]row{big(0, 700, true)}) + " | 2",
+		"overlap " + holdersText([][]row{big(0, 400, false), big(400, 400, false)}) + " | 2",
+		"overlap " + holdersText([][]row{big(0, 64, true), big(64, 64, true), big(128, 64, true)}) + " | 3",
+	} {
+		res, _ := runOp(op)
+		counts["bigmaps"]++
+		if res != "fin" {
+			fails++
+			fmt.Fprintf(out, "FAIL %s => %s\n", op, res)
+			out.Flush()
+		}
+	}
 	for i := 0; i < n; i++ {
 		var op string
 		switch x := r.Intn(10); {
